@@ -88,13 +88,14 @@ class ScriptedAgent:
                         self.first_rep_fault = True
         elif pdu["type"] == ber.PDU_GETBULK:
             cur = list(req)
-            done = [False] * len(req)
             for rep in range(max(pdu["error_index"], 0)):
                 for j in range(len(cur)):
-                    nxt = None if done[j] else self.f(cur[j], rep)
+                    # not sticky: a repetition-dependent function may return an OID
+                    # again after an endOfMibView in the same column (e.g. an agent
+                    # that wraps around to the start of its MIB)
+                    nxt = self.f(cur[j], rep)
                     if nxt is None:
                         out.append((cur[j], ("eomv", None)))
-                        done[j] = True
                     else:
                         out.append((nxt, ("int", 1)))
                         self.revealed.add(nxt)
@@ -287,6 +288,34 @@ def named_families():
     return fams
 
 
+def repdep_families():
+    """Named repetition-dependent behaviours: (name, f)."""
+    ins = IN[:4]
+    succ = {ROOT: ins[0], ins[0]: ins[1], ins[1]: ins[2], ins[2]: ins[3]}
+    fams = []
+
+    def wrap(k, target):
+        def f(oid, rep):
+            if rep < k:
+                return succ.get(oid)
+            if rep == k:
+                return None  # endOfMibView in the middle of the response ...
+            return target  # ... and then data again (wrap-around)
+        return f
+
+    for k in (0, 1, 2):
+        fams.append(("eomv-at-rep-%d-then-wrap-to-first" % k, wrap(k, ins[0])))
+        fams.append(("eomv-at-rep-%d-then-wrap-to-second" % k, wrap(k, ins[1])))
+        fams.append(("eomv-at-rep-%d-then-jump-outside" % k, wrap(k, AFTER)))
+        fams.append(("eomv-at-rep-%d-then-before" % k, wrap(k, BEFORE)))
+
+    def alternate(oid, rep):
+        return succ.get(oid) if rep % 2 == 0 else None
+
+    fams.append(("eomv-on-odd-repetitions", alternate))
+    return fams
+
+
 def sampled(R, n):
     """|U| <= 8 and repetition-dependent functions, plus two roots."""
     uni = [BEFORE] + IN + [AFTER] + IN2
@@ -332,6 +361,12 @@ def run(R):
             for op, mode, bulk in OPS:
                 run_op(R, fdesc, table_f(mapping), op, mode, bulk)
             R.mon["named_families"] += 1
+    for name, f in repdep_families():
+        if R.shard == 0:
+            fdesc = {"kind": "named-repdep", "name": name, "repdep": True}
+            for op, mode, bulk in OPS:
+                run_op(R, fdesc, f, op, mode, bulk)
+            R.mon["named_families"] += 1
     complete = True
     sizes = (2, 3) if R.tier == "quick" else (2, 3, 4)
     for k in sizes:
@@ -366,5 +401,8 @@ def replay(R, v):
     if fd["kind"] in ("table", "named"):
         mapping = {tuple(k): (tuple(val) if val else None) for k, val in fd["map"]}
         run_op(R, fd, table_f(mapping), c["op"], c["mode"], c["bulk"], roots=tuple(tuple(r) for r in c["roots"]))
+    elif fd["kind"] == "named-repdep":
+        f = dict(repdep_families())[fd["name"]]
+        run_op(R, fd, f, c["op"], c["mode"], c["bulk"], roots=tuple(tuple(r) for r in c["roots"]))
     else:
         R.inconclusive("sampled cases are replayed by re-running the check with VERIF_SEED=%s" % fd.get("seed"))
